@@ -13,8 +13,8 @@ import (
 	"strings"
 
 	dbm "github.com/33cn/chain33/common/db"
-	clog "github.com/33cn/chain33/common/log"
 	"github.com/33cn/chain33/common/db/table"
+	clog "github.com/33cn/chain33/common/log"
 	"github.com/33cn/chain33/types"
 	"github.com/33cn/chain33/util"
 	"verifharness/hlib"
@@ -45,9 +45,10 @@ type opIn struct {
 }
 
 type caseIn struct {
-	Backend string `json:"backend"` // leveldb | memdb
-	Kind    string `json:"kind"`
-	Ops     []opIn `json:"ops"`
+	Backend string  `json:"backend"` // leveldb | memdb
+	Kind    string  `json:"kind"`
+	Ops     []opIn  `json:"ops"`
+	JOps    []jopIn `json:"jops,omitempty"` // JoinTable history (join.go)
 }
 
 // ---------- row meta over types.AssetsTransfer ----------
@@ -598,6 +599,12 @@ func main() {
 		if rn == nil {
 			panic(fmt.Sprintf("unknown backend %q", c.Backend))
 		}
+		if len(c.JOps) > 0 {
+			// non-trivial: some join.Save left join index records and some join query returned rows
+			term, st, impl := rn.runJoin(c)
+			o.Emit(c.Kind+"/"+c.Backend, st.nonEmptySaves > 0 && st.qrows > 0, term, c, impl)
+			return
+		}
 		term, st, impl := rn.run(c)
 		// non-trivial: at least one save left a non-empty store and some query returned rows
 		o.Emit(c.Kind+"/"+c.Backend, st.nonEmptySaves > 0 && st.qrows > 0, term, c, impl)
@@ -619,10 +626,19 @@ func main() {
 			emit(&c)
 		}
 	}
+	for _, w := range joinWitnesses() {
+		for _, b := range []string{"leveldb", "memdb"} {
+			c := w
+			c.Backend = b
+			emit(&c)
+		}
+	}
 	r := hlib.NewRng(opts.Seed)
 	nGuard, nFree, nSep, nSepGuard := 160, 200, 60, 0
+	nJoinGuard, nJoinFree := 90, 90
 	if opts.Thorough() {
 		nGuard, nFree, nSep = 3000, 4500, 1200
+		nJoinGuard, nJoinFree = 2500, 2500
 	}
 	_ = nSepGuard
 	backend := func(i int) string {
@@ -642,6 +658,21 @@ func main() {
 			emit(&c)
 		}
 	}
+	// JoinTable histories (own generator state: the plain-table streams below are unchanged)
+	jr := hlib.NewRng(opts.Seed ^ 0x6a6f696e)
+	mkJoin := func(kind string, n int, guarded bool) {
+		for i := 0; i < n; i++ {
+			g := newJGen(jr.Fork(), guarded)
+			ns := 2 + i%3
+			if i < 10 {
+				ns = 1 + i%2 // small cases first
+			}
+			c := caseIn{Backend: backend(i), Kind: kind, JOps: g.history(ns)}
+			emit(&c)
+		}
+	}
+	mkJoin("join-guarded", nJoinGuard, true)
+	mkJoin("join-unrestricted", nJoinFree, false)
 	mk("guarded", nGuard, true, false)
 	mk("unrestricted", nFree, false, false)
 	mk("sep-safe-words", nSep/2, true, true)
